@@ -704,8 +704,7 @@ def _postgen_library(d):
 
 # ------------------------------------------------------------------ streams
 # ------------------------------------------------------------------ AST-rewriting operations
-REWRITE_TYPEMAPS = ["int", "long_long", "unsigned_int", "double", "std::string", "size_t", "char", "bool", "int64_t",
-                    "unsigned_long_long", "float", "short", "void"]
+REWRITE_TYPEMAPS = ["int", "long_long", "std::string", "size_t", "unsigned_long_long", "void"]
 
 
 def rewrite_family():
@@ -714,17 +713,15 @@ def rewrite_family():
     results = ["std :: vector < int >", "std :: vector < double >", "std :: vector < unsigned long >",
                "std :: vector < std :: string >", "std :: vector < const int >", "std :: string", "char", "int", "void", "double",
                "unsigned long long", "size_t", "bool", "int8_t", "long long int"]
-    chains = ["", "*", "&", "* *", "* const", "* const *"]
-    params = ["( )", "( void )", "( int n )", "( int n , const double * a )", "( const std :: vector < int > & v )",
-              "( std :: string & s , int m )", "( int ( * cb ) ( int ) )", "( int SH_rv )", "( double * out , int n )"]
+    chains = ["", "*", "&", "* const *"]
+    params = ["( )", "( void )", "( int n , const double * a )", "( const std :: vector < int > & v )",
+              "( std :: string & s , int ( * cb ) ( int ) )", "( double * out , int SH_rv )"]
     out = []
     for r_ in results:
         for c in chains:
             for cv in ("", "const", "volatile"):
                 for prm in params:
-                    for tail in ("", "const", "+ len ( 30 )", "+ dimension ( n ) + owner ( caller )"):
-                        if tail == "const" and not prm:
-                            continue
+                    for tail in (("", "const", "+ dimension ( n ) + owner ( caller )") if "double" in prm else ("",)):
                         out.append(" ".join(x for x in (cv, r_, c, "getValues", prm, tail) if x))
                 out.append(" ".join(x for x in (cv, r_, c, "value") if x))          # object: no parameter list
                 out.append(" ".join(x for x in (cv, r_, c, "( * fp ) ( int n )") if x))  # parenthesised declarator
@@ -803,8 +800,10 @@ def rewrite_phase(ctx, cases, ok, thorough):
                 continue          # _as_arg of `R (*fp)(..)` sets a name beside the nested declarator: not a Declarator shape
             if op == "settype" and (a.template_arguments or arg == "void"):
                 continue          # a template keeps its arguments by design; `void` is only a result type
-            if b.declarator is None and (b.attrs or b.array):
-                pass
+            if op == "result" and any(p.name == arg for p in (a.params or [])):
+                continue          # precondition of result_as_arg: the new argument's name is not a parameter's
+            if op == "void" and a.name is None:
+                continue          # precondition of set_return_to_void: a named (function) declarator
             stat["roundtrip_checked"] += 1
             try:
                 rendered = b.gen_decl()
@@ -867,6 +866,10 @@ def rewrite_gxx(ctx, cases):
     tmp = common.scratch()
     try:
         lines = CXX_HEAD.split("\n")
+        lines.append("#include <tuple>")
+        lines.append("#include <utility>")
+        lines.append("template<class F, int N> struct RWArg; template<class R, class... A, int N> struct RWArg<R(A...), N> "
+                     "{ using type = typename std::tuple_element<N, std::tuple<A...>>::type; };")
         where = {}
         for i, (text, arg, a, b) in enumerate(cases):
             name = a.name
@@ -878,15 +881,25 @@ def rewrite_gxx(ctx, cases):
                     "using W = X<decltype(o%d::%s)>::T; }" % (i, i, name))
             where[len(lines) + 1] = ("want", i)
             lines.append(want)
-            for k, render in (("decl", lambda: b.gen_decl()), ("cxx", lambda: b.gen_arg_as_cxx(with_template_args=True))):
+            # the prototype rendering writes a std::vector<T> PARAMETER as T (by design): only its result type is compared then
+            templ = any(p.template_arguments for p in (b.params or []))
+            for k, render in (("decl", lambda: b.gen_decl()), ("cxx", lambda: b.gen_arg_as_cxx(with_template_args=True)),
+                              ("cxxd", lambda: b.gen_arg_as_cxx()), ("c", lambda: b.gen_arg_as_c())):
                 try:
                     rtext = render()
                 except Exception:  # noqa
                     continue
+                if k == "c" and ("&" in rtext or "std::" in rtext or "bool" in rtext):
+                    continue
                 where[len(lines) + 1] = (k + "r", i)
                 lines.append("namespace %s%d { extern %s; }" % (k, i, rtext))
                 where[len(lines) + 1] = (k, i)
-                lines.append("static_assert(std::is_same<w%d::W, decltype(%s%d::%s)>::value, \"rewritten\");" % (i, k, i, name))
+                if k == "decl" or (k == "cxx" and not templ):
+                    lines.append("static_assert(std::is_same<w%d::W, decltype(%s%d::%s)>::value, \"rewritten\");" % (i, k, i, name))
+                else:
+                    lines.append("static_assert(std::is_void<decltype(%s%d::%s(%s))>::value, \"result type is not void\");" % (
+                        k, i, name, ", ".join("std::declval<typename RWArg<decltype(%s%d::%s), %d>::type>()" % (k, i, name, j)
+                                              for j in range(len(b.params)))))
         src = os.path.join(tmp, "t.cpp")
         with open(src, "w") as f:
             f.write("\n".join(lines) + "\n")
@@ -905,9 +918,11 @@ def rewrite_gxx(ctx, cases):
                 continue
             n += 1
             ctx.count(1)
-            for k, what in (("decl", "gen_decl()"), ("cxx", "gen_arg_as_cxx(with_template_args=True)")):
+            for k, what, fn in (("decl", "gen_decl()", lambda: b.gen_decl()),
+                                ("cxx", "gen_arg_as_cxx(with_template_args=True)", lambda: b.gen_arg_as_cxx(with_template_args=True)),
+                                ("cxxd", "gen_arg_as_cxx()", lambda: b.gen_arg_as_cxx()), ("c", "gen_arg_as_c()", lambda: b.gen_arg_as_c())):
                 if k in e or k + "r" in e:
-                    got = b.gen_decl() if k == "decl" else b.gen_arg_as_cxx(with_template_args=True)
+                    got = fn()
                     ctx.fail("rewrite-gxx:result_as_arg", "g++: %r after result_as_arg(%r) is rendered by %s as %r, which is not "
                              "`void %s(<parameters>, <result type as pointer> %s)` (%s)" % (
                                  text, arg, what, got, a.name, arg, e.get(k, e.get(k + "r"))),
